@@ -51,6 +51,8 @@ RULE = (
     "terminated, >=1 stream delivered bytes to its reader and >=1 waiter finished; distinct = (client count, multiset of "
     "close kinds, fate class, retry, multiset of operation kinds)."
 )
+RULE += " A third of the stream writers finish with close() instead of write_eof(); some server handlers drop their writer at once; generator 'lazy' (connect(wait_connected=False) followed by wait_connected())."
+
 ASSUMPTIONS = [
     "applications respect the adapter's documented preconditions: one pending wait_connected() per protocol, no write after "
     "write_eof, request_key_update only after the handshake and before termination and at most once per side (a second update before the first is acknowledged is forbidden by RFC 9001 6.1 and not gated by the core; observed: the peer then drops every packet until idle timeout), first write directly after create_stream "
